@@ -240,6 +240,31 @@ Theorem C07_limit : forall mx ops,
 Proof. exact f_run_invariant. Qed.
 Print Assumptions C07_limit.
 
+(* ---- configuration: setProtocolOptions changes exactly the options a call names ---- *)
+(* calls that name no handshake option (failByDrop=..., autoPing..., ...) leave every handshake verdict unchanged, wherever
+   they occur in the sequence; each option ends with the value of the LAST call naming it, else keeps its default *)
+Theorem C07_config_unrelated : forall c calls e chunks, Forall (fun u => u = no_update) calls ->
+  s_run (configure c calls) e chunks = s_run c e chunks.
+Proof. exact verdict_unrelated. Qed.
+Print Assumptions C07_config_unrelated.
+
+Theorem C07_config_interleave : forall c a b, configure c (a ++ no_update :: b) = configure c (a ++ b).
+Proof. exact configure_insert_unrelated. Qed.
+Print Assumptions C07_config_interleave.
+
+Theorem C07_config_last_wins : forall c calls,
+  s_versions (configure c calls) = last_named up_versions calls (s_versions c) /\
+  s_web_status (configure c calls) = last_named up_web_status calls (s_web_status c) /\
+  s_allowed_origins (configure c calls) = last_named up_allowed_origins calls (s_allowed_origins c) /\
+  s_allow_null_origin (configure c calls) = last_named up_allow_null_origin calls (s_allow_null_origin c) /\
+  s_max_connections (configure c calls) = last_named up_max_connections calls (s_max_connections c) /\
+  s_serve_flash (configure c calls) = last_named up_serve_flash calls (s_serve_flash c) /\
+  s_flavour (configure c calls) = s_flavour c /\ s_external_port (configure c calls) = s_external_port c /\
+  s_count_connections (configure c calls) = s_count_connections c /\ s_server (configure c calls) = s_server c /\
+  s_headers (configure c calls) = s_headers c.
+Proof. exact configure_fields. Qed.
+Print Assumptions C07_config_last_wins.
+
 (* ---- non-vacuity ---- *)
 (* RFC 6455 section 1.3 example through the model's base64 and the Gallina SHA-1 *)
 Example C07_accept_rfc_sample :
@@ -398,4 +423,15 @@ Example C07_witness_origin_ports :
   url_to_origin (us (PortSome 0%Z)) (lit "x") = Some (OTriple (lit "http") (lit "example.com") (Some 0%Z)) /\
   is_same_origin (OTriple (lit "http") (lit "example.com") (Some 0%Z)) [lit "http://example.com:*"] = true /\
   is_same_origin (OTriple (lit "ws") (lit "example.com") None) [lit "ws://example.com:80"] = false.
+Proof. vm_compute. repeat split; reflexivity. Qed.
+
+(* the documented default admits "Origin: null"; an unrelated call keeps it; only a call naming allowNullOrigin=False refuses it *)
+Example C07_witness_config :
+  let e := run_env {| t_uri := [(lit "/", UriOk (lit "/") [] [])]; t_qs := [([], Some [])]; t_split := []; t_hl := []; t_offer := []; t_accept := None; t_response := [] |} PNone in
+  let req := lit "GET / HTTP/1.1" ++ CRLF ++ lit "Host: a" ++ CRLF ++ lit "Upgrade: websocket" ++ CRLF ++ lit "Connection: Upgrade" ++ CRLF
+             ++ lit "Sec-WebSocket-Key: dGhlIHNhbXBsZSBub25jZQ==" ++ CRLF ++ lit "Origin: null" ++ CRLF ++ lit "Sec-WebSocket-Version: 13" ++ CRLF ++ CRLF in
+  let verdict calls := match s_result (s_run (configure (default_scfg Tx [] 1) calls) e [req]) with SOpen _ _ _ => true | _ => false end in
+  verdict [] = true /\ verdict [no_update] = true /\
+  verdict [{| up_versions := None; up_web_status := None; up_allowed_origins := None; up_allow_null_origin := Some false;
+              up_max_connections := None; up_serve_flash := None |}; no_update] = false.
 Proof. vm_compute. repeat split; reflexivity. Qed.
